@@ -248,8 +248,13 @@ class Session:
         self.src_tx = {s: source_tx(s, outs) for s, outs in self.truth.items()}
         self.hash_of = {s: t.hash() for s, t in self.src_tx.items()}
         self.style = style
-        spendables = [Spendable(a, SCR[sc], self.hash_of[s], k) for (s, k), (a, sc) in zip(self.ins, un0)]
-        self.tx = network.tx_utils.create_tx(spendables, [(ADDR[t], a) for t, a in outs0], fee=0)
+        if len(un0) == len(self.ins) and style % 8 < 6:
+            spendables = [Spendable(a, SCR[sc], self.hash_of[s], k) for (s, k), (a, sc) in zip(self.ins, un0)]
+            self.tx = network.tx_utils.create_tx(spendables, [(ADDR[t], a) for t, a in outs0], fee=0)
+        else:
+            # the constructor takes the unspents as they come (any length)
+            self.tx = Tx(1, [TxIn(self.hash_of[s], k) for s, k in self.ins], [TxOut(a, ADDR_SCRIPT[t]) for t, a in outs0],
+                         unspents=self.unspent_objs(un0, style % 2 == 0))
 
     # -- concretisation of arguments
     def unspent_objs(self, lst, spendable):
@@ -319,16 +324,36 @@ class Session:
             self.tx.txs_out[i - 1].script = ADDR_SCRIPT[to]
         return ["ok"]
 
+    def remove_in(self):
+        self.tx.txs_in.pop()
+        self.ins.pop()
+        return ["ok"]
+
+    def append_in(self, src, idx):
+        self.tx.txs_in.append(TxIn(self.hash_of[src], idx))
+        self.ins.append((src, idx))
+        return ["ok"]
+
     # -- projection of the current fields (attribute reads only: asks the object nothing)
     def fields(self):
         un = [None if u is None else [u.coin_value, SCR_OF.get(u.script, 0)] for u in self.tx.unspents]
         outs = [[TO_OF_SCRIPT.get(o.script, 0), o.coin_value] for o in self.tx.txs_out]
         return un, outs
 
-    def fresh(self, un, outs):
+    def in_fields(self):
+        src_of = {h: s for s, h in self.hash_of.items()}
+        return [[src_of.get(t.previous_hash, 0), t.previous_index] for t in self.tx.txs_in]
+
+    def fresh(self, un, outs, ins=None):
         """a new object with the given current fields and no history"""
         f = Session.__new__(Session)
-        f.ins, f.truth, f.src_tx, f.hash_of, f.style = self.ins, self.truth, self.src_tx, self.hash_of, 0
-        f.tx = Tx(1, [TxIn(self.hash_of[s], k) for s, k in self.ins], [TxOut(a, ADDR_SCRIPT[t]) for t, a in outs])
-        f.tx.set_unspents([TxOut(a, SCR[sc]) for a, sc in un])
+        f.ins = [tuple(i) for i in ins] if ins is not None else list(self.ins)
+        f.truth, f.src_tx, f.hash_of, f.style = self.truth, self.src_tx, self.hash_of, 0
+        txs_in = [TxIn(self.hash_of[s], k) for s, k in f.ins]
+        txs_out = [TxOut(a, ADDR_SCRIPT[t]) for t, a in outs]
+        if len(un) == len(f.ins):
+            f.tx = Tx(1, txs_in, txs_out)
+            f.tx.set_unspents([TxOut(a, SCR[sc]) for a, sc in un])
+        else:       # only the constructor takes a list of another length
+            f.tx = Tx(1, txs_in, txs_out, unspents=[TxOut(a, SCR[sc]) for a, sc in un])
         return f
